@@ -42,6 +42,27 @@ Denotation(groups) ==
   IF Fault = "last_group_only" /\ Len(groups) > 1 THEN GroupTracts(groups[Len(groups)], 1)
   ELSE DocTracts(groups, 1)
 
+\* --- the library's own rendering (TractList.pretty_desc) ----------------------
+\* One header line per maximal run of tracts with the same Twp/Rge ("to the extent possible while maintaining the
+\* current order"), one section line per tract.  Lines: [k |-> "tr" | "sec", tr, sec, block].
+HeaderLine(tr) == [k |-> "tr", tr |-> tr, sec |-> 0, block |-> 0]
+SecLine(t) == [k |-> "sec", tr |-> t.tr, sec |-> t.sec, block |-> t.block]
+RECURSIVE PrettyFrom(_, _)
+PrettyFrom(den, i) ==
+  IF i > Len(den) THEN <<>>
+  ELSE (IF i = 1 \/ (den[i].tr # den[i - 1].tr /\ Fault # "pretty_one_header") THEN <<HeaderLine(den[i].tr)>> ELSE <<>>)
+       \o <<SecLine(den[i])>> \o PrettyFrom(den, i + 1)
+PrettyLines(den) == PrettyFrom(den, 1)
+\* the rendering read as a document again (Twp/Rge-Sec-desc layout, every section a list of one):
+\* a section line belongs to the last header line before it
+RECURSIVE ReadFrom(_, _, _)
+ReadFrom(lines, i, cur) ==
+  IF i > Len(lines) THEN <<>>
+  ELSE IF lines[i].k = "tr" THEN ReadFrom(lines, i + 1, lines[i].tr)
+  ELSE <<[tr |-> cur, sec |-> lines[i].sec, block |-> lines[i].block]>> \o ReadFrom(lines, i + 1, cur)
+ReadPretty(lines) == ReadFrom(lines, 1, 0)
+Runs(den) == Cardinality({i \in 1..Len(den) : i = 1 \/ den[i].tr # den[i - 1].tr})
+
 \* --- the grammar as a transition system -------------------------------------
 VARIABLES layout, groups, open, done
 vars == <<layout, groups, open, done>>
@@ -78,6 +99,10 @@ Total(j) == IF j = 0 THEN 0 ELSE SumCounts(groups[j].secs, Len(groups[j].secs)) 
 OneTractPerSection == done => Len(Denotation(Concrete)) = Total(Len(groups))
 ReadingOrder == done => LET d == Denotation(Concrete) IN
                   \A a, b \in 1..Len(d) : a < b => d[a].block <= d[b].block
+\* pretty_desc is again a description of the same tracts, with one header per run of equal Twp/Rge
+PrettyRoundTrip == done => ReadPretty(PrettyLines(Denotation(Concrete))) = Denotation(Concrete)
+PrettyHeaders == done => LET d == Denotation(Concrete) IN
+                   Cardinality({i \in 1..Len(PrettyLines(d)) : PrettyLines(d)[i].k = "tr"}) = Runs(d)
 Bounded == Len(groups) <= MaxGroups /\ \A g \in 1..Len(groups) : Len(groups[g].secs) \in 1..MaxSecs
 
 CaseRecord == [layout |-> layout, groups |-> groups]
